@@ -22,7 +22,7 @@ DECISIVE = {"BinInRange", "BlockSizeAtLeastRequest", "BinMonotone", "Fragmentati
             "GoodEqualsUsable", "UnalignRecoversStart", "PtrPageRecovers", "FastDivExact", "AlignUpOK", "AlignDownOK",
             "DivideUpOK", "MulOverflowOK", "SliceBinInRange", "SliceBinMonotone", "NoCrash"}
 
-_re_guard = re.compile(r'<<"GUARDFAIL", "([^"]+)", (\d+)(?:, "([^"]*)")?>>')
+_re_guard = re.compile(r'<<\s*"GUARDFAIL",\s*"([^"]+)",\s*(\d+)(?:,\s*"([^"]*)")?\s*>>')
 _re_diam = re.compile(r'"TVDIAMETER", (\d+)')
 _re_states = re.compile(r"(\d+) states generated, (\d+) distinct states found")
 
@@ -95,7 +95,7 @@ def split_table(path, od, build):
 
 def validate_chunk(cp):
     rc, out, wall = run_tlc("BinsTrace", "BinsTrace.cfg", "tv_" + os.path.basename(cp), env={"TRACE": os.path.abspath(cp)}, timeout=1500)
-    gf = [(m.group(1), int(m.group(2)), m.group(3) or "?") for m in _re_guard.finditer(out)]
+    gf = [(m.group(1), int(m.group(2)), m.group(3) or "?") for m in _re_guard.finditer(vlib._unwrap_prints(out))]
     m = _re_diam.search(out)
     consumed = int(m.group(1)) if m else 0
     with open(cp) as f:
